@@ -39,12 +39,21 @@ inductive Op where
   | delTs (key : String)
   | batchIng (keys : List String)
   | batchVs (keys : List String)
+  | batchTs (keys : List String)          -- `UpdateTransportServers(nil, keys)`: the batch path used when a namespace stops being watched
   | restart
   deriving Repr
 
 /-- `generateTLSPassthroughHostsConfig` -/
 def renderPt (pairs : Map (String × String)) : Map String :=
   pairs.foldl (fun m kv => m.set kv.2.1 kv.2.2) []
+
+/-- `deleteTransportServer(key)`: the stream file goes, and — for a TLS-passthrough TransportServer — its host leaves the map. -/
+def delTs (s : St) (key : String) : St :=
+  let s := { s with stream := s.stream.erase (tsFileKey key) }
+  if s.pairs.contains key then
+    let pairs := s.pairs.erase key
+    { s with pairs := pairs, ptFile := some (renderPt pairs) }
+  else s
 
 def step (s : St) : Op → St
   | .addIng ns name uid => { s with conf := s.conf.set (ingFile ns name) uid }
@@ -61,14 +70,10 @@ def step (s : St) : Op → St
     else s
   | .delIng key => { s with conf := s.conf.erase (ingFileKey key) }
   | .delVs key => { s with conf := s.conf.erase (vsFileKey key) }
-  | .delTs key =>
-    let s := { s with stream := s.stream.erase (tsFileKey key) }
-    if s.pairs.contains key then
-      let pairs := s.pairs.erase key
-      { s with pairs := pairs, ptFile := some (renderPt pairs) }
-    else s
+  | .delTs key => delTs s key
   | .batchIng keys => { s with conf := keys.foldl (fun m k => m.erase (ingFileKey k)) s.conf }
   | .batchVs keys => { s with conf := keys.foldl (fun m k => m.erase (vsFileKey k)) s.conf }
+  | .batchTs keys => keys.foldl delTs s
   -- the process state is gone, the volume survived; start-up (cmd/nginx-ingress/main.go) writes the passthrough hosts map empty
   | .restart => { s with pairs := [], ptFile := some [] }
 
